@@ -264,6 +264,9 @@ func (runInfo *runInfoStruct) invokeDerefExpr(expr *ast.DerefExpr) {
 		return
 	}
 
+	if runInfo.rv.Kind() == reflect.Interface && !runInfo.rv.IsNil() {
+		runInfo.rv = runInfo.rv.Elem()
+	}
 	if runInfo.rv.Kind() != reflect.Ptr {
 		runInfo.err = newStringError(expr.Expr, "cannot deference non-pointer")
 		runInfo.rv = nilValue
